@@ -22,9 +22,12 @@ type C14 struct {
 	preDenoms string
 	preExists map[string]bool
 	classes   map[string]bool
+	iso       *C13 // rejected messages leave every consumer's raw state untouched
 }
 
-func NewC14(w *world.World) *C14 { return &C14{classes: map[string]bool{}} }
+func NewC14(w *world.World) *C14 {
+	return &C14{classes: map[string]bool{}, iso: &C13{OnlySuccessful: true, Prop: "C14"}}
+}
 
 func (m *C14) valState(w *world.World, co *world.ConsObs) map[string]string {
 	out := map[string]string{}
@@ -64,6 +67,7 @@ func (m *C14) snapshot(w *world.World) {
 }
 
 func (m *C14) Before(w *world.World, a *world.Action) {
+	m.iso.Before(w, a)
 	if a.Kind != world.KBlock || (a.Chain != "" && a.Chain != "provider") || w.P.Height == 0 {
 		return
 	}
@@ -77,6 +81,9 @@ func (m *C14) class(w *world.World, who, verdict string) {
 }
 
 func (m *C14) After(w *world.World, a *world.Action, r *world.StepResult) *Violation {
+	if v := m.iso.After(w, a, r); v != nil {
+		return v
+	}
 	if r.Block == nil || r.Chain != "provider" || r.Block.Failed() || m.preOwner == nil {
 		return nil
 	}
